@@ -288,7 +288,7 @@ def gen_cases(r, tier, widen):
                       "tri": tri, "winding_mode": mode, "flips": flips, "scale": s, "celltype": r.choice([0, 0, 1, 2, 3, 4])})
     # sharp-edged flat prisms AWAY from the origin: the shapes on which ball pivoting leaves several holes in one run, so that
     # fill_surface_holes is exercised more than once per reconstruction, at a place where an absolute position would show
-    for k in range(24 if tier == "quick" and not widen else 80):
+    for k in range(40 if tier == "quick" and not widen else 120):
         v, f = U.prism(r.choice([3, 3, 4]), 1.5, 0.6)
         f = [list(t) for t in f]
         R = rot_matrix(r)
